@@ -158,7 +158,7 @@ theorem padAxis_X_eq (c : FPCfg α) (pd pp : Nat → Arr2 α) (f : Nat) (t : Arr
     padAxisOfFace c pd pp f c.xAxis t =
       oneX c pd pp (oneX c pd pp t (linksOf c f c.xAxis).1 false) (linksOf c f c.xAxis).2 true := by
   have hw0 : ¬ (c.width = 0) := by omega
-  unfold padAxisOfFace
+  unfold padAxisOfFace padAxisWithLinks
   simp only [hw0, if_false, decide_true, if_true]
   rfl
 
@@ -301,7 +301,7 @@ theorem padAxis_Y_eq (c : FPCfg α) (pd pp : Nat → Arr2 α) (f : Nat) (t : Arr
       oneY c pd pp (oneY c pd pp t (linksOf c f c.yAxis).1 false) (linksOf c f c.yAxis).2 true := by
   have hw0 : ¬ (c.width = 0) := by omega
   have hne' : ¬ (c.yAxis = c.xAxis) := fun h => hne h.symm
-  unfold padAxisOfFace
+  unfold padAxisOfFace padAxisWithLinks
   simp only [hw0, if_false, hne', decide_false, Bool.false_eq_true]
   rfl
 
